@@ -53,7 +53,7 @@ CLAIMS = {
         "(the NASM rewritings keep the address for every register valuation). Memory forms also store a small negative immediate. Tie: the family on the C implementation (thorough: all 17x16x4x13x2 "
         "shapes for mov, lea, paddb, vaddpd) incl. [base+rsp], [1*rsp+disp] shapes, option bytes NASM/STRICT and both mixed SIB settings, decoded and "
         "compared; decimal displacements also written with leading zeros ([rbx+010] is rbx+10); objdump cross-check of the decoder on every encoding.",
-   note="Sweep by evaluation (native_decide axiom), see C01. RIP-relative operands are not in the documented syntax and not in the family.",
+   note="Also Sweep.c02_sweep_extreme (family famC02x: the ends of the disp32 range, -2^31 and 2^31-1 with their neighbours, on every kind of memory shape, hexadecimal and decimal; native_decide like the other sweeps). Sweep by evaluation (native_decide axiom), see C01. RIP-relative operands are not in the documented syntax and not in the family.",
    technique="Lean 4 reference decoder with address-equivalence relation; finite-domain theorem (native_decide) + kernel-checked field lemmas for all values; differential run with decoding oracle",
    design="8/C02"),
  "C03": dict(
@@ -77,7 +77,7 @@ CLAIMS = {
         "aluKeys_classified on the regenerated table) as REX.W 83 /n ib exactly when v sign-extends from 8 bits, else REX.W 81 /n id (8n+5 id for "
         "rax), which Spec.AluImm.aluRead (own reader from the SDM) maps back to (operation, register, v); tied to the C code by seeded random and "
         "threshold values x registers x operations x spellings with the encodings recomputed in the check.",
-   note="Sweep by evaluation (native_decide axiom). 'Representable' is read as encodable: for 64-bit non-mov destinations values outside the sign-"
+   note="Also Sweep.c03_sweep_padded (family famC03x: immediates written with 17 and 24 hexadecimal digits on every immediate form; native_decide). Sweep by evaluation (native_decide axiom). 'Representable' is read as encodable: for 64-bit non-mov destinations values outside the sign-"
         "extended imm32 range are not in the family. mov r64, imm <= 0xffffffff may be emitted to the 32-bit register (C11 says in which mode).",
    technique="Lean 4 reference decoder; inductive numeral lemmas for all values; finite-domain theorem (native_decide); differential run with decoding oracle and executed code",
    design="8/C03"),
@@ -101,7 +101,7 @@ CLAIMS = {
         "-2^31..2^31-1, with and without short/long, every option byte: rel8, rel32 or rejection exactly as stated, displacement field = d's two's "
         "complement), and the same at the TEXT level (C05.rel_branch_text_dec / _neg_dec / _hex / _neg_hex: each of the 20 relative-branch mnemonics, "
         "no keyword / short / long, four spellings with leading zeros, through filter, tokenizer and lookups - Lemmas.BranchText.branch_line). Register, memory and far-memory targets: the indirect forms of call, jmp, call far, jmp far over all 16 registers and the C02 address shapes (key bases and indices, stack-pointer swap shapes, every base-less scaled index) are part of the C05 family (sweep theorem on the model, the same lines on the C code with the decoding oracle; the far pointer width - REX.W - is the same for all far lines with the same keyword).",
-   note="Sweep by evaluation (native_decide axiom). 'short' on call/xbegin (no rel8 form exists) is not judged.",
+   note="Also Sweep.c05_sweep_padded (family famC05x: displacements written with 16, 17 and 24 hexadecimal digits under no keyword / short / long; native_decide). Sweep by evaluation (native_decide axiom). 'short' on call/xbegin (no rel8 form exists) is not judged.",
    technique="Lean 4 reference decoder; finite-domain theorem (native_decide) + two's-complement lemmas for all displacements; differential run with decoding oracle",
    design="8/C05"),
  "C17": dict(
